@@ -35,7 +35,8 @@ COMPONENTS = {
     "stubbed_or_absent": ["no reference FASTA / CRAM path", "index freshness by mtime not varied"],
 }
 ASSUMPTIONS = [
-    "reads have no indels (the cross-algorithm clause is stated for indel-free reads)",
+    "reads have no deletions / skips (the cross-algorithm clause is stated for indel-free reads); insertions, "
+    "which do not change the reference bases a read covers, are generated",
     "BED files fed to --count contain no '#'/blank lines (count mode rejects them; not quantified over)",
     "a chunk never consists of a 'track' header line alone (chunk size >= 2 when a header is present)",
     "SimPool models CPython 3.12 ProcessPoolExecutor (fork start method): eager map submission, "
